@@ -621,7 +621,11 @@ public:          // need to be public due to CRTP
                   GetModel().num_common_exprs(),
                   -1);          // init by -1, "no variable"
     }
+    if (-2 == common_exprs_[index])               // being converted
+      MP_RAISE("Defined variable " + std::to_string(index+1)
+               + " is defined through itself (invalid NL file)");
     if (common_exprs_[index]<0) {                 // not yet converted
+      common_exprs_[index] = -2;
       auto ce = MP_DISPATCH( GetModel() ).common_expr(index);
       EExpr eexpr( ToLinTerms(ce.linear_expr()) );
       if (ce.nonlinear_expr())
